@@ -105,6 +105,36 @@ DESC = {
  "C20-r4-1": ("from_isize goes through i32", "|value| >= 2^31"),
  "C20-r4-2": ("Vector::dot accumulates in blocks of four", "D >= 4"),
  "C20-r4-3": ("hypot-style rescaling in Vector::squared for extreme magnitudes", "largest |component| outside [1e-120, 1e120]"),
+ "C03-r5-1": ("from_graph computes num_loops with Euler's formula for a connected graph (1+E-V)", "an input graph with more than one component"),
+ "C03-r5-2": ("get_loop_number returns 0 for subsets with < 2 edges", "a self-loop edge"),
+ "C03-r5-3": ("a generalised dod below f64::EPSILON is stored as 0.0", "a true generalised dod with 0 < |omega| < 2.2e-16 (e.g. an edge weight 1e-17)"),
+ "C04-r5-1": ("recursion divisor omega(g\\e).max(f64::EPSILON)", "a proper subgraph with 0 < omega < 2.2e-16"),
+ "C04-r5-2": ("Gamma(weight) of integer weights 1..20 as n! instead of (n-1)!", "an integer weight >= 2"),
+ "C04-r5-3": ("pi^(D L/2) takes L = 1+E-V of the full graph", "an accepted graph whose full graph is disconnected"),
+ "C05-r5-1": ("vertex table [false; u8::MAX] has 255 slots", "vertex label 255"),
+ "C05-r5-2": ("get_loop_number returns 0 for subsets with < 2 edges", "a graph whose only divergent subgraph is a self-loop"),
+ "C05-r5-3": ("divergence check only for subgraphs with loops", "a mass-momentum spanning forest with omega <= 0 (raised powers or low D)"),
+ "C06-r5-1": ("fall-through only when 1 - cum_sum <= f64::EPSILON, else panic", "rounded cumulative sum >= 3 half-ulps below 1 and u in the gap"),
+ "C06-r5-2": ("strict comparison cum_sum > u", "u bit-equal to a running sum"),
+ "C06-r5-3": ("fall-through pops the top edge of the FULL graph (XOR toggles it back in)", "top edge already removed, then the rounding gap of the remaining subgraph"),
+ "C07-r5-1": ("is_mass_momentum_spanning looks at the first component only", "a disconnected subgraph whose externals sit on another component than its lowest edge"),
+ "C07-r5-2": ("last edge handled up front (no v_trop/u_trop update for it)", "two-point graph / last edge mass-momentum spanning on its own"),
+ "C07-r5-3": ("xi clamped to max(xi, f64::EPSILON)", "a xi coordinate below 2^-52"),
+ "C09-r5-1": ("masses collected with filter_map and padded (packed to the front)", "a massless edge listed before a massive one"),
+ "C09-r5-2": ("v clamped from below to 1e-10 * sum_e x_e(m_e^2+p_e^2)", "cancellation ratio of V above 1e10 (large loop-momentum offsets)"),
+ "C09-r5-3": ("break instead of continue on a zero signature entry in compute_l_matrix", ">=3 loops and a signature row with a zero between two non-zero entries"),
+ "C10-r5-1": ("(I+N)^-1 as (I-N)(I+N^2)", ">= 5 loops with coupled consecutive loops"),
+ "C10-r5-2": ("shift[l] subtracted inside the fold over l' (num_loops times)", ">=2 loops and non-zero u"),
+ "C10-r5-3": ("precedence slip: mass^2 + shift^2 * x_e", "a massive propagator"),
+ "C12-r5-1": ("iterate guard x_n < 0 instead of <= 0 (statrs panics on gamma_lr(a,0))", "a < 1 and a starting value of exactly 0 (p = 0 or underflow)"),
+ "C12-r5-2": ("un-iterated estimate returned for a >= 50", "a in [50,100], p within ~5e-6 of the point where w = a"),
+ "C12-r5-3": ("wrapper accepts every finite result", "small shape and p in the thin band where the 50th iterate is negative; or a~1, p=0"),
+ "C14-r5-1": ("get_num_variables computes the loop number as 1+E-V", "a disconnected graph"),
+ "C14-r5-2": ("a xi of exactly zero is drawn again", "an exactly zero xi coordinate"),
+ "C14-r5-3": ("offset = dimension instead of += when cutting the Gaussian buffer", ">= 3 loops"),
+ "C17-r5-1": ("subgraph weights summed in ahash iteration order (two cooperating sites)", "unequal weights whose sum is order dependent; differs between builds/processes"),
+ "C17-r5-2": ("return_metadata selects another order of operations for the loop momenta", "return_metadata, >=2 loops, non-zero shifts"),
+ "C17-r5-3": ("generate_sample_from_rng redraws when the generator returns exactly 0.0", "an RNG draw that is exactly 0.0"),
 }
 
 
@@ -135,6 +165,7 @@ def main():
                               "failing_input_found": bool(viol) and "no-failing-input-found" not in viol[0], "summary": out.strip().splitlines()[-1]}
             finally:
                 subprocess.run("git -C /repo checkout -- .", shell=True, check=True)
+                subprocess.run("git -C /verif checkout -- lean/Momtrop/Generated/SerdeSchema.lean", shell=True)
             print(n, results[n]["rc"], results[n]["summary"][-120:], flush=True)
         meta = {"breaks_property": prop, "change": what, "needs_to_manifest": needs, "origin": "fresh sub-agent given only the property text and a scratch worktree",
                 "confirmed_by_me": conf, "what_i_ran": "tools/confirm_seeded.py (scratch worktree: suite with patch, demo with patch, demo without) and tools/seeded_meta.py --run (git -C /repo apply; ./check; git checkout)",
